@@ -16,6 +16,7 @@ from ..tree import show
 from . import evalsum, progx
 
 BLD = "rspirv::dr::build"
+EXTRA_REPRESENTATIVES = False          # thorough tier: a third, larger representative per selection state
 
 
 def _block(t, n, labelled=True):
@@ -72,6 +73,16 @@ def representatives(ctx, state):
         out.append(("no function but block index 0 selected", _builder(t, [_function(t, 1, True)], None, 0)))
     elif F == "stale":
         out.append(("function index 3 of 1 selected", _builder(t, [_function(t, 1, True)], 3, None if B is None else 0)))
+    if EXTRA_REPRESENTATIVES:
+        three = lambda: [_function(t, 1, True), _function(t, 2), _function(t, 0)]
+        if (F, B) == (None, None):
+            out.append(("three functions, none selected", _builder(t, three(), None, None)))
+        elif (F, B) == ("valid", None):
+            out.append(("function 2 of 3 (no blocks) selected", _builder(t, three(), 2, None)))
+        elif (F, B) == ("valid", "valid"):
+            out.append(("function 1 of 3, block 1 of 2 selected", _builder(t, three(), 1, 1)))
+        elif (F, B) == ("valid", "stale"):
+            out.append(("function 2 of 3 (no blocks) with block index 1 selected", _builder(t, three(), 2, 1)))
     return out
 
 
